@@ -245,6 +245,29 @@ func init() {
 		}
 		return nil, true
 	})
+	vf("vfSettle", func(in *Interp, th *Thread, fn *ssa.Function, a []Value) (Value, bool) {
+		// block the caller until no other thread can run (each is done or blocked)
+		for _, t := range in.threads {
+			if t != th && in.runnable(t) {
+				panic(blockSignal{why: "vfSettle", passive: true, cond: func() bool {
+					for _, t := range in.threads {
+						if t != th && in.runnable(t) {
+							return false
+						}
+					}
+					return true
+				}})
+			}
+		}
+		if in.raceCheck {
+			for _, t := range in.threads {
+				if t != th && t.vc != nil {
+					in.vcOf(th).join(t.vc)
+				}
+			}
+		}
+		return nil, true
+	})
 	vf("vfYield", func(in *Interp, th *Thread, fn *ssa.Function, a []Value) (Value, bool) {
 		in.syncPoint(th, "yield")
 		return nil, true
